@@ -64,6 +64,10 @@ def _residual_cond(e, ext_name, ext_val, benv=None) -> str:
     return src(e)
 
 
+# set by the engine: (function, expression) -> False when the expression is definitely not a notation object
+CHILD_ORACLE = None
+
+
 class Printer:
     def __init__(self, fi: FuncInfo):
         self.fi = fi
@@ -106,6 +110,8 @@ class Printer:
                 flag = self._flag(e, ext_val)
                 return [("K", src(f.value), flag)]
             if isinstance(f, ast.Name) and f.id == "str" and len(e.args) == 1:
+                if CHILD_ORACLE is not None and CHILD_ORACLE(self.fi, e.args[0]) is False:
+                    return [("H", src(e.args[0]))]  # str(<number / text>) is a plain hole, like f"{x}"
                 return [("K", src(e.args[0]), True)]  # str(x) == x.generate_string(True)
             if isinstance(f, ast.Attribute) and f.attr == "join" and isinstance(f.value, ast.Constant) and len(e.args) == 1:
                 a = e.args[0]
